@@ -14,10 +14,7 @@ fn a4(b: &[u8]) -> Ipv4Address {
 }
 
 fn gen_proto(r: &mut Rng) -> u8 {
-    match r.below(3) {
-        0 => *r.pick(&[1u8, 2, 6, 17, 58, 0, 41, 43, 44, 50, 51, 59, 60]),
-        _ => gen_u8(r),
-    }
+    draw_raw::<IpProtocol>(r) as u8
 }
 
 fn gen_emit(r: &mut Rng, tier: &str) -> Vec<String> {
@@ -39,7 +36,7 @@ fn gen_emit(r: &mut Rng, tier: &str) -> Vec<String> {
 
 fn gen_parse(r: &mut Rng, tier: &str) -> Vec<String> {
     let plen = gen_payload_len(r, tier, 1480).min(if r.chance(3, 4) { 40 } else { 1480 });
-    let repr = Ipv4Repr { src_addr: a4(&gen_ipv4(r)), dst_addr: a4(&gen_ipv4(r)), next_header: IpProtocol::from(gen_proto(r)), payload_len: plen, hop_limit: gen_u8(r) };
+    let repr = Ipv4Repr { src_addr: a4(&gen_ipv4(r)), dst_addr: a4(&gen_ipv4(r)), next_header: of_raw::<IpProtocol>((gen_proto(r)) as u32), payload_len: plen, hop_limit: gen_u8(r) };
     let mut base = vec![0u8; 20 + plen];
     repr.emit(&mut Ipv4Packet::new_unchecked(&mut base[..]), &caps(true, true));
     let p = gen_payload(r, plen);
@@ -74,7 +71,7 @@ fn run_op(op: &str) -> String {
         })
     };
     if op.starts_with("emit") {
-        let repr = Ipv4Repr { src_addr: a4(&kv.b("src")), dst_addr: a4(&kv.b("dst")), next_header: IpProtocol::from(kv.u("proto") as u8), payload_len: kv.u("plen") as usize, hop_limit: kv.u("hop") as u8 };
+        let repr = Ipv4Repr { src_addr: a4(&kv.b("src")), dst_addr: a4(&kv.b("dst")), next_header: of_raw::<IpProtocol>((kv.u("proto") as u8) as u32), payload_len: kv.u("plen") as usize, hop_limit: kv.u("hop") as u8 };
         let mut buf = kv.b("buf");
         match guard(|| repr.emit(&mut Ipv4Packet::new_unchecked(&mut buf[..]), &cc)) {
             None => "ret PANIC | -".to_string(),
